@@ -22,15 +22,18 @@ def install_sql_hooks(kill, counts):
 
     def before_exec(conn, cursor, statement, parameters, context, executemany):
         s = statement.lstrip().upper()
-        if s.startswith('PRAGMA') or s.startswith('CREATE') or s.startswith('SELECT'):
+        if s.startswith('PRAGMA') or s.startswith('SELECT'):
             return
+        # (schema creation statements count too: a crawl can be killed while its database is being set up)
         counts['stmt'] += 1
+        if s.startswith('CREATE'):
+            counts['ddl'] = counts.get('ddl', 0) + 1
         if kill and kill['kind'] == 'before_stmt' and counts['stmt'] == kill['at']:
             die()
 
     def after_exec(conn, cursor, statement, parameters, context, executemany):
         s = statement.lstrip().upper()
-        if s.startswith('PRAGMA') or s.startswith('CREATE') or s.startswith('SELECT'):
+        if s.startswith('PRAGMA') or s.startswith('SELECT'):
             return
         if kill and kill['kind'] == 'after_stmt' and counts['stmt'] == kill['at']:
             die()
